@@ -36,7 +36,7 @@ CLAIMED["C10"] = ("exploration", "4 C10", "deterministic simulation: bulk operat
 CLAIMED["C14"] = ("exploration", "4 C14", "deterministic simulation with storage fault injection: vectors over simulator-owned storage whose slack bits and spare words hold garbage re-scrambled between operations; bit-exact storage model checked after every read and write",
             "Core fit: the storage is the fault surface. Read clause and write clause are both checked after every step of every history.", BITS_NOTE)
 
-RS_NOTE = "Weak fit, stated as such: the fault-injection content is the tail state (stale bits after pop/truncation, garbage and spare words in caller-supplied storage); the rest is seeded generation against a sorted-positions model. Bit counts above 2^24 are not generated."
+RS_NOTE = "Weak fit, stated as such: the fault-injection content is the tail state (stale bits after pop/truncation, garbage and spare words in caller-supplied storage); the rest is seeded generation against a sorted-positions model. Nothing is generated between 2^24 and 2^32 bits; a few sparse vectors just beyond 2^32 bits exercise the upper counters."
 CLAIMED["C01"] = ("exploration", "4 C01/C02", "deterministic simulation: rank structures (Rank9, five RankSmall variants, under selection wrappers up to depth 4) over bit vectors whose tail state is produced by simulated histories and garbage-filled caller storage; prefix-popcount model",
             "Every structure of a 21-stack catalogue is built over seeded vectors in four tail states and compared with the model at every position (sampled on big vectors) including past the end.", RS_NOTE)
 CLAIMED["C02"] = ("exploration", "4 C01/C02", "deterministic simulation: every selection structure and 35 nestings with drawn parameters over bit vectors in clean, stale and dirty tail states; sorted-positions model for select and select_zero",
